@@ -82,12 +82,15 @@ PROPS["C04"] = {
     "quick": [H("ZZ_C04_Base", reach=["placed"], bounds="all N<E<2^62")] +
              [H("ZZ_C04_Step", params=p, reach=["advanced", "removed", "kept"], bounds="G=2^31, wheel-time slot positions pinned: %s" % p) for p in _c04_step_quick] +
              [H("ZZ_C04_Resched", reach=["rescheduled"]), H("ZZ_C04_Deschedule", reach=["descheduled"]),
-              H("ZZ_C04_Slot3", params={"P0": 5}, reach=["advanced"]), H("ZZ_C04_Jump", reach=["jumped"], bounds="jump >= 2^51 ns, wheel time = 1234567 ticks + symbolic offset")],
+              H("ZZ_C04_Slot3", params={"P0": 5}, reach=["advanced"]), H("ZZ_C04_Jump", reach=["jumped"], bounds="jump >= 2^51 ns, wheel time = 1234567 ticks + symbolic offset"),
+              H("ZZ_C04_Store", reach=["two-ticks"], bounds="through the Store: TTL <= 2^29 ns and two tick instants symbolic"),
+              H("ZZ_C04_LateUpdate", reach=["three-ticks"], bounds="TTL update processed 2^31 ns late")],
     "thorough": [H("ZZ_C04_Base", reach=["placed"]),
                  H("ZZ_C04_Step", reach=["advanced", "removed", "kept"], bounds="G=2^31, all positions symbolic"),
                  H("ZZ_C04_Resched", reach=["rescheduled"]), H("ZZ_C04_Deschedule", reach=["descheduled"]),
                  H("ZZ_C04_Slot3", params={"P0": 5}, reach=["advanced"]), H("ZZ_C04_Slot3", params={"P0": 63, "P1": 7}, reach=["advanced"]),
-                 H("ZZ_C04_Jump", reach=["jumped"]), H("ZZ_C04_Jump", params={"K": 4194303}, reach=["jumped"])],
+                 H("ZZ_C04_Jump", reach=["jumped"]), H("ZZ_C04_Jump", params={"K": 4194303}, reach=["jumped"]),
+                 H("ZZ_C04_Store", reach=["two-ticks"]), H("ZZ_C04_LateUpdate", reach=["three-ticks"])],
 }
 
 def _c07(M, capbits, climbM):
@@ -255,12 +258,14 @@ PROPS["C13"] = {
     "title": "loading cache: one load in flight, shared result, failures not cached",
     "technique": "SSA symbolic execution with controlled threads, defer/panic/recover/Goexit semantics, of the real singleflight Group.Do/doCall and LoadingStore.Get with loaders that succeed, fail, panic or call runtime.Goexit; all schedules within the preemption bound",
     "level_text": "Bounded model checking over schedules: N callers of one key run the real Group.Do (and the real LoadingStore.Get on top of it) with a loader that yields and then returns a value, returns an error, panics or calls Goexit; asserted: never two loader invocations running, every caller receives an invocation's value / the error / the panic / the Goexit, nothing stays in flight, the shard is usable, a failure is not cached (the next Get loads again), a success is stored with the loader's cost and TTL exactly as Set would and is accounted by the policy.",
-    "level_note": _thr_note + "2 callers (thorough 3), preemption bound 1; call-record pool LIFO (thorough: adversarial choice). Interleaved Set/Delete on the loading key is not in the programs.",
+    "level_note": _thr_note + "2 callers (thorough 3), preemption bound 1; call-record pool LIFO (thorough: adversarial choice). Set/Delete interleaved with the load of the same key has its own program.",
     "assumptions": ["loader yields once (slow loader) and is otherwise atomic"],
-    "outside_bound": ["more than 3 callers", "Set/Delete on the key during the load", "nested loads"],
-    "quick": [H("ZZ_C13_Group", params={"CALLERS": 2, "PRE": 1}, reach=["all-callers-finished"]), H("ZZ_C13_Loading", params={"CALLERS": 2, "PRE": 1}, reach=["all-callers-finished"])],
+    "outside_bound": ["more than 3 callers", "nested loads"],
+    "quick": [H("ZZ_C13_Group", params={"CALLERS": 2, "PRE": 1}, reach=["all-callers-finished"]), H("ZZ_C13_Loading", params={"CALLERS": 2, "PRE": 1}, reach=["all-callers-finished"]),
+              H("ZZ_C13_LoadingWithWriter", params={"PRE": 1}, reach=["both-finished"], bounds="one loading Get and one Set/Delete of the same key, loader ok/failing, preemptions 1")],
     "thorough": [H("ZZ_C13_Group", params={"CALLERS": 3, "PRE": 1, "POOLMODE": 2}, reach=["all-callers-finished"]), H("ZZ_C13_Group", params={"CALLERS": 2, "PRE": 2}, reach=["all-callers-finished"]),
-                 H("ZZ_C13_Loading", params={"CALLERS": 3, "PRE": 1}, reach=["all-callers-finished"])],
+                 H("ZZ_C13_Loading", params={"CALLERS": 3, "PRE": 1}, reach=["all-callers-finished"]),
+                 H("ZZ_C13_LoadingWithWriter", params={"PRE": 2}, reach=["both-finished"])],
 }
 
 PROPS["C16"] = {
@@ -350,15 +355,15 @@ PROPS["C18"] = {
 def _c19(pre):
     return [H("ZZ_C19_Pairs", params={"PAIR": p, "PRE": pre}, reach=["pair-done"], bounds=b) for p, b in
             [(0, "Range || Set"), (1, "Len/EstimatedSize || Delete+Set"), (2, "Stats || Get"), (3, "17 Gets (read-buffer drain) || Sets with eviction and listener"),
-             (4, "tick/expiry || SetWithTTL || Get"), (5, "Close || Get/Set"), (6, "Wait || Set")]]
+             (4, "tick/expiry || SetWithTTL || Get"), (5, "Close || Get/Set"), (6, "Wait || Set"), (7, "SaveCache || Set/Delete"), (8, "SaveCache || tick/expiry || Get"), (9, "loading Get || Delete/Set")]]
 
 PROPS["C19"] = {
     "title": "no data races in the default configuration (bounded)",
     "technique": "vector-clock (happens-before) race monitor inside the SSA executor over every heap cell loaded or stored, on two-thread programs of the real Store explored over all schedules within the preemption bound",
     "level_text": "Bounded model checking with a happens-before monitor: for pairs of API calls the suite never overlaps, every schedule at synchronisation granularity within the preemption bound is executed and every load/store of a heap cell (struct fields, slice elements, maps) is checked against the last conflicting access using vector clocks (edges: mutex release->acquire, channel send->receive and close->receive, go, WaitGroup, sync/atomic accesses). Because exploration is exhaustive inside the bound, a race in the bounded program is reported whichever schedule hides it from the Go race detector. The self-test plants a race and checks that it is reported.",
-    "level_note": _thr_note + "Entry pool off, listener installed. Cells inside stubbed library objects and RBMutex internals (own harness under C01) are not monitored. SaveCache and hybrid pairs are not among the programs.",
+    "level_note": _thr_note + "Entry pool off, listener installed. Cells inside stubbed library objects and RBMutex internals (own harness under C01) are not monitored. Hybrid pairs are not among the programs; SaveCache runs with the gob stub.",
     "assumptions": ["ideal reader/writer lock for RBMutex"],
-    "outside_bound": ["more than 2 client threads", "SaveCache and hybrid-cache pairs", "preemption bound above 1 (thorough 2)"],
+    "outside_bound": ["more than 2 client threads", "hybrid-cache pairs", "preemption bound above 1 (thorough 2)"],
     "quick": _c19(1),
     "thorough": _c19(2),
 }
